@@ -3,9 +3,18 @@ import os, re, subprocess, hashlib, json, shutil, tempfile, concurrent.futures a
 
 REPO = os.environ.get('XV_REPO', '/repo')
 CLANG = 'clang++-14'
-CXXFLAGS = ['-std=c++17', '-O1', '-DNDEBUG', '-fno-vectorize', '-fno-slp-vectorize', '-fno-unroll-loops',
-            '-march=sapphirerapids', '-mavx512er', '-mavx512pf', '-mfma4', '-mno-amx-tile',
-            '-I' + REPO + '/include', '-Wno-everything', '-ferror-limit=0']
+BASEFLAGS = ['-std=c++17', '-O1', '-DNDEBUG', '-fno-vectorize', '-fno-slp-vectorize', '-fno-unroll-loops',
+             '-I' + REPO + '/include', '-Wno-everything', '-ferror-limit=0']
+M512 = ['-march=sapphirerapids', '-mavx512er', '-mavx512pf', '-mfma4', '-mno-amx-tile']
+# 128/256-bit architectures are lowered without AVX-512 enabled, as a user of those architectures would build them (with AVX-512
+# enabled, overload resolution of kernel::swizzle on batch<uint16_t, sse2..avx2> hits a hard static_assert in an avx512f overload)
+M256 = ['-march=alderlake', '-mfma4', '-mno-avx512f']
+CXXFLAGS = BASEFLAGS + M512
+
+
+def flags_for(arch):
+    if arch.startswith('emu'): return BASEFLAGS + M256
+    return BASEFLAGS + (M512 if ARCH[arch][2] == 512 else M256)
 
 # tag, C++ spelling, register bits, can the host execute it
 ARCHS = [
@@ -106,13 +115,13 @@ PRELUDE = '''#include <xsimd/xsimd.hpp>
 
 
 def _compile_tu(args):
-    path, lines, extra, emit_obj = args
+    path, lines, extra, flags = args
     lines = list(lines)
     dropped = []
-    for attempt in range(40):
+    for attempt in range(60):
         with open(path + '.cpp', 'w') as f:
             f.write(PRELUDE + '\n'.join(lines) + '\n')
-        cmd = [CLANG] + CXXFLAGS + extra + ['-S', '-emit-llvm', path + '.cpp', '-o', path + '.ll']
+        cmd = [CLANG] + flags + extra + ['-S', '-emit-llvm', path + '.cpp', '-o', path + '.ll']
         p = subprocess.run(cmd, capture_output=True, text=True)
         if p.returncode == 0:
             return path + '.ll', dropped, lines
@@ -144,13 +153,13 @@ def lower(kernels, workdir, extra_flags=(), group=None, jobs=16, fexc=False):
     jobsl = []
     for g, ks in groups.items():
         # split big groups for parallelism
-        chunk = 400
+        chunk = 250
         for ci in range(0, len(ks), chunk):
             sub = ks[ci:ci + chunk]
             path = os.path.join(workdir, 'tu_%s_%d' % (re.sub(r'\W', '_', g), ci // chunk))
             extra = list(extra_flags) + ([] if fexc else ['-fno-exceptions'])
             if any(k.arch.startswith('emu') for k in sub): extra.append('-DXSIMD_WITH_EMULATED=1')
-            jobsl.append((path, [k.cpp() for k in sub], extra, False))
+            jobsl.append((path, [k.cpp() for k in sub], extra, flags_for(sub[0].arch)))
     out = {}; dropped = []
     with cf.ThreadPoolExecutor(jobs) as ex:
         for (path, lines, extra, _), res in zip(jobsl, ex.map(_compile_tu, jobsl)):
